@@ -240,7 +240,7 @@ def run(tier, seed):
     exe = core.build("rel")
     shim = core.tool("iofault.so")
     files = build_files(exe, seed, tier)
-    n = 220 if tier == "quick" else 5000
+    n = 150 if tier == "quick" else 2000
     stats, fails = core.hyp_search(strategy(len(files)), make_eval(exe, shim, files), n, seed)
     for f in fails:
         f["seed"], f["tier"] = seed, tier
@@ -249,9 +249,9 @@ def run(tier, seed):
     # buffers (every NEED() site, every emitter state) versus one-piece decoding, on generated valid files and on files
     # with one catalogue defect
     from props import _inproc
-    _inproc.add(stats, fails, "decode_valid", seed, 12000 if tier == "quick" else 1500000)
-    _inproc.add(stats, fails, "decode_defect", seed, 6000 if tier == "quick" else 500000)
-    _inproc.add(stats, fails, "decode_sym", seed, 8000 if tier == "quick" else 800000)
+    _inproc.add(stats, fails, "decode_valid", seed, 6000 if tier == "quick" else 200000)
+    _inproc.add(stats, fails, "decode_defect", seed, 2500 if tier == "quick" else 60000)
+    _inproc.add(stats, fails, "decode_sym", seed, 5000 if tier == "quick" else 200000)
     oc = core.conclude(PID, fails, replay_case, confirm_runs=4)
     core.write_evidence(PID, tier, seed, "exploration", stats, RULE, time.time() - t0,
                         violations=len(oc.violations), extra=extra,
